@@ -191,20 +191,37 @@ func cmdCheck(args []string) {
 	replayDir := filepath.Join(*verifDir, "replays")
 	violations := 0
 	reported := map[string]bool{}
+	var firsts []*Obligation
 	for _, o := range failed {
 		if reported[o.Name] {
 			continue
 		}
 		reported[o.Name] = true
-		violations++
+		firsts = append(firsts, o)
+	}
+	// replays run in parallel; at most maxReplays per run (the others are
+	// reported without a concrete input)
+	const maxReplays = 4
+	confirmedBy := make([]bool, len(firsts))
+	paths := make([]string, len(firsts))
+	var rwg sync.WaitGroup
+	for i, o := range firsts {
 		os.MkdirAll(replayDir, 0o755)
-		rp := filepath.Join(replayDir, fmt.Sprintf("%s-%s.json", *prop, sanitize(o.Name)))
-		confirmed := writeReplay(rp, *prop, o, p, *repo)
+		paths[i] = filepath.Join(replayDir, fmt.Sprintf("%s-%s.json", *prop, sanitize(o.Name)))
+		rwg.Add(1)
+		go func(i int, o *Obligation) {
+			defer rwg.Done()
+			confirmedBy[i] = writeReplay(paths[i], *prop, o, p, *repo, i < maxReplays)
+		}(i, o)
+	}
+	rwg.Wait()
+	for i, o := range firsts {
+		violations++
 		suffix := ""
-		if !confirmed {
+		if !confirmedBy[i] {
 			suffix = " no-failing-input-found"
 		}
-		fmt.Printf("VIOLATION property=%s replay=%s obligation=%s status=%s%s\n", *prop, rp, o.Name, o.Status, suffix)
+		fmt.Printf("VIOLATION property=%s replay=%s obligation=%s status=%s%s\n", *prop, paths[i], o.Name, o.Status, suffix)
 	}
 	if *verbose {
 		seenLast := map[string]bool{}
@@ -281,7 +298,7 @@ func sanitize(s string) string {
 
 // writeReplay writes the replay description of a failed obligation. It
 // returns true if a concrete failing input was confirmed on the real code.
-func writeReplay(path, prop string, o *Obligation, p *Program, repo string) bool {
+func writeReplay(path, prop string, o *Obligation, p *Program, repo string, doReplay bool) bool {
 	r := map[string]interface{}{
 		"property":   prop,
 		"obligation": o.Name,
@@ -297,7 +314,10 @@ func writeReplay(path, prop string, o *Obligation, p *Program, repo string) bool
 		"solver_out": o.Output,
 	}
 	confirmed := false
-	if o.Status == "refuted" && o.Model != "" {
+	if o.Status == "refuted" && o.Model != "" && !doReplay {
+		r["replay"] = map[string]interface{}{"confirmed": false, "not_replayed": "replay budget of this run used by other failed obligations"}
+	}
+	if o.Status == "refuted" && o.Model != "" && doReplay {
 		if res := tryReplay(o, p, repo); res != nil {
 			r["replay"] = res
 			if ok, _ := res["confirmed"].(bool); ok {
